@@ -3,7 +3,8 @@
 in-process (Rust engine harness/src/props/c12.rs): every well-formed brace term over {a b { } ,} up to length 7
 (thorough 9; nesting/alternatives/groups bounded) in four position templates and all pairs of short terms, all
 ranges {m..n[..s]} over -3..3 (-5..5) x steps {none,0,1,2,3,7} with and without surrounding text, tilde forms,
-and every population subset of {a ab b .h 'a b' d/ d/e} x ten patterns, planned by the real code and compared
+and every population subset of {a ab b .h 'a b' d/ d/e .k/ .k/e} x eleven patterns (a hidden directory must not be
+matched by a `*` component), planned by the real code and compared
 with reference expanders.
 process level (here): the short brace terms, small ranges, tilde forms and every population x pattern executed by
 the real binary (helper argv must equal the reference)."""
@@ -12,8 +13,8 @@ import os
 
 from .. import common
 
-POP = ["a", "ab", "b", ".h", "a b", "d", "d/e"]
-PATTERNS = ["*", "a*", "*b", ".*", "d/*", "x*", "'*'", '"a*"', "*a*", "a*b"]
+POP = ["a", "ab", "b", ".h", "a b", "d", "d/e", ".k", ".k/e"]
+PATTERNS = ["*", "a*", "*b", ".*", "d/*", "x*", "'*'", '"a*"', "*a*", "a*b", "*/e"]
 
 
 def brace_parse(s):
@@ -78,15 +79,21 @@ def glob_match(p, n):
 def glob_ref(present, pattern):
     if pattern[0] in '\'"':
         return [pattern[1:-1]]
-    d, _, pat = pattern.rpartition('/')
+    # component by component: a literal component names itself, a component with `*` matches non-hidden names
+    # (hidden ones only when it is written `.*...`), in every position of the path
+    pcomps = pattern.split('/')
     out = []
     for e in present:
-        ed, _, name = e.rpartition('/')
-        if ed != d:
+        ecomps = e.split('/')
+        if len(ecomps) != len(pcomps):
             continue
-        if name.startswith('.') and not pat.startswith('.*'):
-            continue
-        if glob_match(pat, name):
+        ok = True
+        for p, n in zip(pcomps, ecomps):
+            if '*' not in p:
+                ok = ok and p == n
+            else:
+                ok = ok and not (n.startswith('.') and not p.startswith('.*')) and glob_match(p, n)
+        if ok:
             out.append(e)
     return sorted(out, key=lambda x: x.encode()) or [pattern]
 
@@ -107,8 +114,8 @@ def run_dir(job):
     try:
         for i, e in enumerate(POP):
             if mask & (1 << i):
-                if e == 'd':
-                    os.makedirs(os.path.join(d, 'd'), exist_ok=True)
+                if e in ('d', '.k'):
+                    os.makedirs(os.path.join(d, e), exist_ok=True)
                 else:
                     os.makedirs(os.path.dirname(os.path.join(d, e)), exist_ok=True)
                     with open(os.path.join(d, e), 'w') as f:
@@ -185,6 +192,8 @@ def run(rep, tier):
     for mask in range(1 << len(POP)):
         if mask & (1 << 6) and not mask & (1 << 5):
             continue
+        if mask & (1 << 8) and not mask & (1 << 7):
+            continue
         present = [e for i, e in enumerate(POP) if mask & (1 << i)]
         cases = [{'line': 'vh-argv %s' % pat, 'expect': glob_ref(present, pat), 'kind': 'glob', 'population': present} for pat in PATTERNS]
         jobs.append((mask, cases))
@@ -198,7 +207,7 @@ def run(rep, tier):
                 rep.traces_validated += 1
             else:
                 rep.outcome('exec-' + k)
-                rep.violation('exec-%s:%s' % (k, c['kind']), {'line': c['line'], 'population': c.get('population')}, c['expect'], obs,
+                rep.violation('exec-%s:%s%s' % (k, c['kind'], (':' + c['line'].split(' ', 1)[1]) if c['kind'] == 'glob' else ''), {'line': c['line'], 'population': c.get('population')}, c['expect'], obs,
                               repro='cicada -c %s' % common.shquote(c['line']))
     rep.bounds.append({'layer': 'real binary -c: short brace terms, small ranges, tilde forms, all populations x patterns', 'cases': n, 'complete': True})
     if rep.traces_validated < 300:
